@@ -23,7 +23,7 @@ var c10Dict = map[string][]string{
 	"html": {"<a href=\"", "\">", "</a>", "<img src=", " srcset=\"", "<script>", "</script>", "<script type=\"application/json\">", "<style>", "</style>", "<base href=\"", "<link rel=alternate href=",
 		"<meta content=\"http", "<source srcset=", "<video src=", "<audio src=", " style=\"background:url(", " data-item='", " data-preview=\"http", " onclick=\"window.location='", "<!--", "-->", "<![CDATA[", "]]>",
 		"<table>", "<select>", "<template>", "<svg>", "<math>", "<noscript>", "<plaintext>", "<textarea>", "<title>", "<iframe srcdoc=\"", "&#x", "&amp;", "&#0;", "url(", ")", "'", "\"", "=", ",", " 1x, ", "//", "http://", "https://[", "%zz", "\\u00", "{\"", "\":", "}", "{", "\x00", "\xff", "\xef\xbb\xbf"},
-	"json": {"{", "}", "[", "]", "\"", "\":", ",", ":", "\\\"", "\\\\", "\\u", "\\ud800", "null", "true", "1e999", "-", "0x", "{\"a\":", "[\"", "\"]", "\"{\\\"", "\\\"}\"", "http://", "//", "https://[::1]/", ".png", "\x00", "\xff", "\xef\xbb\xbf", " ", "\n"},
+	"json": {"{", "}", "[", "]", "\"", "\":", ",", ":", "\\\"", "\\\\", "\\u", "\\ud800", "null", "true", "1e999", "-", "0x", "{\"a\":", "[\"", "\"]", "\"{\\\"", "\\\"}\"", "http://", "//", "https://[::1]/", ".png", "\x00", "\xff", "\xef\xbb\xbf", " ", "\n", "\"      \"", "\"\\n        \"", "\"\\t\\t\\t\\t\\t\\t\"", "     ", "\\n\\n\\n\\n\\n"},
 	"xml": {"<", ">", "</", "/>", "<?xml version=\"1.0\" encoding=\"", "?>", "<!--", "-->", "<![CDATA[", "]]>", "<!DOCTYPE ", "<!ENTITY ", "[", "]>", "&amp;", "&#x", "&#", ";", "&x;", " xmlns=\"", " xmlns:a=\"", "a:", "=\"", "='", "\"", "'",
 		"http://www.sitemaps.org/schemas/sitemap/0.9", "sitemaps.org/schemas/sitemap/", "<urlset", "<loc>", "</loc>", "http", "https://", "UTF-16", "ISO-8859-1", "GB2312", "UTF-32", "utf-7", "Shift_JIS", "windows-1252", "TIS-620", "ISO-2022-KR", "\x00", "\xff\xfe", "\xef\xbb\xbf"},
 	"s3": {"<ListBucketResult>", "</ListBucketResult>", "<Contents>", "</Contents>", "<Key>", "</Key>", "<Size>", "</Size>", "<CommonPrefixes>", "</CommonPrefixes>", "<Prefix>", "</Prefix>", "<IsTruncated>", "true", "</IsTruncated>",
